@@ -11,7 +11,7 @@ import time
 
 import z3
 
-Z3_TIMEOUT_MS = int(os.environ.get("PYVC_Z3_MS", "6000"))
+Z3_TIMEOUT_MS = int(os.environ.get("PYVC_Z3_MS", "10000"))
 CVC5_TIMEOUT_S = int(os.environ.get("PYVC_CVC5_S", "75"))
 Z3OLD_TIMEOUT_S = int(os.environ.get("PYVC_Z3OLD_S", "0"))
 SEED = 0
@@ -25,7 +25,7 @@ def _smt2(assumptions, goal):
     return s.to_smt2()
 
 
-ABS_MS = int(os.environ.get("PYVC_ABS_MS", "8000"))
+ABS_MS = int(os.environ.get("PYVC_ABS_MS", "20000"))
 
 
 def _has_q(f):
